@@ -1,5 +1,6 @@
 /* C02 - a signature verifies only for the document hash and level it was issued for */
 #include "anchor_fix.h"
+#include <unistd.h>
 
 enum { P_INTERNAL = 0, P_CALENDAR, P_KEY, P_PUBFILE, P_USERPUB, P_GENERAL, P_NPOL };
 static const char *PNAME[P_NPOL] = {"internal", "calendar", "key", "pubfile", "userpub", "general"};
@@ -215,7 +216,23 @@ static void verify_all(world_t *w, const unsigned char *imprint, size_t n, int h
 			vf_count("impl_calls", 1);
 			judge(w, "parseWithPolicy+ctx", exp, rc, 0, 0, 0, detail);
 			if (rc != KSI_OK && ps != NULL) vf_fail("signature-returned-with-error", "KSI_Signature_parseWithPolicy failed with 0x%x but returned a signature", rc);
-			KSI_Signature_free(ps);
+			KSI_Signature_free(ps); ps = NULL;
+			{
+				/* (2f) the same bytes read from a file by the helper that takes a policy and the caller's context */
+				static char path[64];
+				FILE *f;
+				if (!path[0]) snprintf(path, sizeof path, "/tmp/vf_c02_%ld.ksig", (long)getpid());
+				f = fopen(path, "wb");
+				if (f == NULL || fwrite(sb.p, 1, sb.n, f) != sb.n) vf_harness_error("cannot write %s", path);
+				fclose(f);
+				w->vc.signature = NULL;
+				rc = KSI_Signature_fromFileWithPolicy(w->ctx, path, w->policy, &w->vc, &ps);
+				vf_count("impl_calls", 1);
+				judge(w, "fromFileWithPolicy+ctx", exp, rc, 0, 0, 0, detail);
+				if (rc != KSI_OK && ps != NULL) vf_fail("signature-returned-with-error", "KSI_Signature_fromFileWithPolicy failed with 0x%x but returned a signature", rc);
+				KSI_Signature_free(ps);
+				remove(path);
+			}
 			vb_free(&sb);
 			w->vc.signature = w->sig; w->vc.documentHash = NULL; w->vc.docAggrLevel = 0;
 		}
